@@ -17,7 +17,8 @@ def delayNodes : Expr → List DNode
   | .idx _ i => delayNodes i
   | .der _ => []
   | .derAt _ i => delayNodes i
-  | .neg e => delayNodes e
+  | .un _ e => delayNodes e
+  | .ite c t e => delayNodes c ++ delayNodes t ++ delayNodes e
   | .bin _ a b => delayNodes a ++ delayNodes b
   | .delay id a d => delayNodes a ++ delayNodes d ++ [(id, a, d)]
   | .dsym _ => []
@@ -43,7 +44,8 @@ def srcAtoms : Expr → List Atom
   | .idx n i => .var n :: srcAtoms i
   | .der n => [.der n]
   | .derAt n i => .der n :: srcAtoms i
-  | .neg e => srcAtoms e
+  | .un _ e => srcAtoms e
+  | .ite c t e => srcAtoms c ++ srcAtoms t ++ srcAtoms e
   | .bin _ a b => srcAtoms a ++ srcAtoms b
   | .delay id _ _ => [.dly id]
   | .dsym k => [.dly k]
@@ -128,7 +130,12 @@ theorem tr_step (lp : Option (String × Nat)) : ∀ (e : Expr) (s : St),
   | .idx _ i, s => by simpa [tr, delayNodes] using tr_step lp i s
   | .der _, s => ⟨[], by simpa [tr, delayNodes] using Step.refl lp s⟩
   | .derAt _ i, s => by simpa [tr, delayNodes] using tr_step lp i s
-  | .neg e, s => by simpa [tr, delayNodes] using tr_step lp e s
+  | .un _ e, s => by simpa [tr, delayNodes] using tr_step lp e s
+  | .ite c t e, s => by
+    obtain ⟨nc, hc⟩ := tr_step lp c s
+    obtain ⟨nt, ht⟩ := tr_step lp t (tr lp c s).2
+    obtain ⟨ne, he⟩ := tr_step lp e (tr lp t (tr lp c s).2).2
+    exact ⟨nc ++ nt ++ ne, by simpa [tr, delayNodes] using (hc.trans ht).trans he⟩
   | .bin _ a b, s => by
     obtain ⟨na, ha⟩ := tr_step lp a s
     obtain ⟨nb, hb⟩ := tr_step lp b (tr lp a s).2
@@ -221,6 +228,12 @@ theorem newArgs_bin (lp : Option (String × Nat)) (o : BinOp) (a b : Expr) (s : 
   apply newArgs_eq
   simp [tr, tr_args lp b, tr_args lp a]
 
+theorem newArgs_ite (lp : Option (String × Nat)) (c t e : Expr) (s : St) :
+    newArgs lp (.ite c t e) s =
+      newArgs lp c s ++ newArgs lp t (tr lp c s).2 ++ newArgs lp e (tr lp t (tr lp c s).2).2 := by
+  apply newArgs_eq
+  simp [tr, tr_args lp e, tr_args lp t, tr_args lp c]
+
 /-! ## Durations: the translated duration depends on a disallowed symbol iff the source one does -/
 
 /-- The expression does not mention the variable of the enclosing loop (vacuous outside loops). -/
@@ -236,7 +249,11 @@ theorem indexed_imp_var (v : String) : ∀ e : Expr, mentionsIndexed v e = true 
   | .dsymAt _ i, h => by simpa [mentionsIndexed, mentionsVar] using h
   | .der _, h => by simp [mentionsIndexed] at h
   | .derAt _ i, h => by simpa [mentionsIndexed, mentionsVar] using h
-  | .neg e, h => by simpa [mentionsIndexed, mentionsVar] using indexed_imp_var v e (by simpa [mentionsIndexed] using h)
+  | .un _ e, h => by simpa [mentionsIndexed, mentionsVar] using indexed_imp_var v e (by simpa [mentionsIndexed] using h)
+  | .ite c t e, h => by
+    simp only [mentionsIndexed, Bool.or_eq_true] at h
+    simp only [mentionsVar, Bool.or_eq_true]
+    exact h.imp (fun h' => h'.imp (indexed_imp_var v c) (indexed_imp_var v t)) (indexed_imp_var v e)
   | .bin _ a b, h => by
     simp only [mentionsIndexed, Bool.or_eq_true] at h
     simp only [mentionsVar, Bool.or_eq_true]
@@ -260,7 +277,10 @@ theorem tr_mentionsVar (v : String) (n : Nat) : ∀ (e : Expr) (s : St), mention
   | .dsymAt _ i, s, h => by simpa [tr, mentionsVar] using tr_mentionsVar v n i s (by simpa [mentionsVar] using h)
   | .der _, s, _ => by simp [tr, mentionsVar]
   | .derAt _ i, s, h => by simpa [tr, mentionsVar] using tr_mentionsVar v n i s (by simpa [mentionsVar] using h)
-  | .neg e, s, h => by simpa [tr, mentionsVar] using tr_mentionsVar v n e s (by simpa [mentionsVar] using h)
+  | .un _ e, s, h => by simpa [tr, mentionsVar] using tr_mentionsVar v n e s (by simpa [mentionsVar] using h)
+  | .ite c t e, s, h => by
+    simp only [mentionsVar, Bool.or_eq_false_iff] at h
+    simp [tr, mentionsVar, tr_mentionsVar v n c s h.1.1, tr_mentionsVar v n t _ h.1.2, tr_mentionsVar v n e _ h.2]
   | .bin _ a b, s, h => by
     simp only [mentionsVar, Bool.or_eq_false_iff] at h
     simp [tr, mentionsVar, tr_mentionsVar v n a s h.1, tr_mentionsVar v n b _ h.2]
@@ -281,7 +301,10 @@ theorem loopVar_not_mem_srcAtoms : ∀ e : Expr, Atom.loopVar ∉ srcAtoms e
   | .delay _ _ _ => by simp [srcAtoms]
   | .idx _ i => by simpa [srcAtoms] using loopVar_not_mem_srcAtoms i
   | .dsymAt _ i => by simpa [srcAtoms] using loopVar_not_mem_srcAtoms i
-  | .neg e => by simpa [srcAtoms] using loopVar_not_mem_srcAtoms e
+  | .un _ e => by simpa [srcAtoms] using loopVar_not_mem_srcAtoms e
+  | .ite c t e => by
+    simp only [srcAtoms, List.mem_append, not_or]
+    exact ⟨⟨loopVar_not_mem_srcAtoms c, loopVar_not_mem_srcAtoms t⟩, loopVar_not_mem_srcAtoms e⟩
   | .der _ => by simp [srcAtoms]
   | .derAt _ i => by simpa [srcAtoms] using loopVar_not_mem_srcAtoms i
   | .bin _ a b => by
@@ -331,9 +354,17 @@ theorem atoms_tr (lp : Option (String × Nat)) : ∀ (e : Expr) (s : St), LoopFr
     have ih := atoms_tr lp i s hi
     have hl := loopVar_not_mem_of_norm_eq ih
     simp [tr, atoms, srcAtoms, hl, ih, norm]
-  | .neg e, s, h => by
+  | .un _ e, s, h => by
     have he : LoopFree lp e := fun v n hv => by simpa [mentionsVar] using h v n hv
     simpa [tr, atoms, srcAtoms] using atoms_tr lp e s he
+  | .ite c t e, s, h => by
+    have hc : LoopFree lp c := fun v n hv => by
+      have := h v n hv; simp only [mentionsVar, Bool.or_eq_false_iff] at this; exact this.1.1
+    have ht : LoopFree lp t := fun v n hv => by
+      have := h v n hv; simp only [mentionsVar, Bool.or_eq_false_iff] at this; exact this.1.2
+    have he : LoopFree lp e := fun v n hv => by
+      have := h v n hv; simp only [mentionsVar, Bool.or_eq_false_iff] at this; exact this.2
+    simp [tr, atoms, srcAtoms, atoms_tr lp c s hc, atoms_tr lp t _ ht, atoms_tr lp e _ he]
   | .bin _ a b, s, h => by
     have ha : LoopFree lp a := fun v n hv => by
       have := h v n hv; simp only [mentionsVar, Bool.or_eq_false_iff] at this; exact this.1
@@ -376,7 +407,12 @@ theorem durs_tr (c : Cats) (lp : Option (String × Nat)) : ∀ (e : Expr) (s : S
   | .dsymAt _ i, s, h => by simpa [newArgs, tr, delayNodes] using durs_tr c lp i s (by simpa [delayNodes] using h)
   | .der _, s, _ => by simp [newArgs, tr, delayNodes]
   | .derAt _ i, s, h => by simpa [newArgs, tr, delayNodes] using durs_tr c lp i s (by simpa [delayNodes] using h)
-  | .neg e, s, h => by simpa [newArgs, tr, delayNodes] using durs_tr c lp e s (by simpa [delayNodes] using h)
+  | .un _ e, s, h => by simpa [newArgs, tr, delayNodes] using durs_tr c lp e s (by simpa [delayNodes] using h)
+  | .ite x t e, s, h => by
+    have hx := durs_tr c lp x s (fun nd hnd => h nd (by simp [delayNodes, hnd]))
+    have ht := durs_tr c lp t (tr lp x s).2 (fun nd hnd => h nd (by simp [delayNodes, hnd]))
+    have he := durs_tr c lp e (tr lp t (tr lp x s).2).2 (fun nd hnd => h nd (by simp [delayNodes, hnd]))
+    simp [newArgs_ite, delayNodes, hx, ht, he]
   | .bin o a b, s, h => by
     have ha := durs_tr c lp a s (fun nd hnd => h nd (by simp [delayNodes, hnd]))
     have hb := durs_tr c lp b (tr lp a s).2 (fun nd hnd => h nd (by simp [delayNodes, hnd]))
@@ -502,7 +538,8 @@ def evalS (ρ : Env) (τ : Nat → Option Rat) : Expr → Option Rat
   | .idx n i => (evalS ρ τ i).bind fun q => (toIndex q).bind fun j => ρ.val n j
   | .der n => ρ.val (derName n) 0
   | .derAt n i => (evalS ρ τ i).bind fun q => (toIndex q).bind fun j => ρ.val (derName n) j
-  | .neg e => (evalS ρ τ e).map (fun x => -x)
+  | .un f e => (evalS ρ τ e).map (applyUn f)
+  | .ite c t e => (evalS ρ τ c).bind fun x => if x = 0 then evalS ρ τ e else evalS ρ τ t
   | .bin o a b => (evalS ρ τ a).bind fun x => (evalS ρ τ b).bind fun y => applyBin o x y
   | .delay id _ _ => τ id
   | .dsym k => ρ.val (delayName k) 0
@@ -534,10 +571,26 @@ theorem tr_sem (ρ : Env) (τ : Nat → Option Rat) : ∀ (e : Expr) (s : St),
     have hn : newArgs none (.dsymAt m i) s = newArgs none i s := by simp [newArgs, tr]
     obtain ⟨h1, h2⟩ := tr_sem ρ τ i s (by simpa [hn] using h)
     exact ⟨by simp [tr, eval, evalS, h1], by simpa [hn, delayNodes] using h2⟩
-  | .neg e, s, h => by
-    have hn : newArgs none (.neg e) s = newArgs none e s := by simp [newArgs, tr]
+  | .un f e, s, h => by
+    have hn : newArgs none (.un f e) s = newArgs none e s := by simp [newArgs, tr]
     obtain ⟨h1, h2⟩ := tr_sem ρ τ e s (by simpa [hn] using h)
     exact ⟨by simp [tr, eval, evalS, h1], by simpa [hn, delayNodes] using h2⟩
+  | .ite x t e, s, h => by
+    rw [newArgs_ite] at h
+    obtain ⟨x1, x2⟩ := tr_sem ρ τ x s (fun y hy => h y (by simp [hy]))
+    obtain ⟨t1, t2⟩ := tr_sem ρ τ t (tr none x s).2 (fun y hy => h y (by simp [hy]))
+    obtain ⟨e1, e2⟩ := tr_sem ρ τ e (tr none t (tr none x s).2).2 (fun y hy => h y (by simp [hy]))
+    refine ⟨by simp [tr, eval, evalS, x1, t1, e1], ?_⟩
+    intro y hy
+    rw [newArgs_ite] at hy
+    rcases List.mem_append.mp hy with hy | hy
+    · rcases List.mem_append.mp hy with hy | hy
+      · obtain ⟨nd, hnd, hp⟩ := x2 y hy
+        exact ⟨nd, by simp [delayNodes, hnd], hp⟩
+      · obtain ⟨nd, hnd, hp⟩ := t2 y hy
+        exact ⟨nd, by simp [delayNodes, hnd], hp⟩
+    · obtain ⟨nd, hnd, hp⟩ := e2 y hy
+      exact ⟨nd, by simp [delayNodes, hnd], hp⟩
   | .bin o a b, s, h => by
     rw [newArgs_bin] at h
     obtain ⟨a1, a2⟩ := tr_sem ρ τ a s (fun x hx => h x (List.mem_append_left _ hx))
@@ -635,7 +688,8 @@ def evalL (ρ : Env) (v : String) (c : Nat) : Expr → Option Rat
   | .idx n i => (evalL ρ v c i).bind fun q => (toIndex q).bind fun j => ρ.val n j
   | .der n => ρ.val (derName n) 0
   | .derAt n i => (evalL ρ v c i).bind fun q => (toIndex q).bind fun j => ρ.val (derName n) j
-  | .neg e => (evalL ρ v c e).map (fun x => -x)
+  | .un f e => (evalL ρ v c e).map (applyUn f)
+  | .ite x t e => (evalL ρ v c x).bind fun y => if y = 0 then evalL ρ v c e else evalL ρ v c t
   | .bin o a b => (evalL ρ v c a).bind fun x => (evalL ρ v c b).bind fun y => applyBin o x y
   | .delay _ _ _ => none
   | .dsym k => ρ.val (delayName k) 0
@@ -652,7 +706,8 @@ theorem eval_substVar (ρ : Env) (v : String) (c : Nat) : ∀ e : Expr, eval ρ 
   | .idx _ i => by simp [substVar, eval, evalL, eval_substVar ρ v c i]
   | .derAt _ i => by simp [substVar, eval, evalL, eval_substVar ρ v c i]
   | .dsymAt _ i => by simp [substVar, eval, evalL, eval_substVar ρ v c i]
-  | .neg e => by simp [substVar, eval, evalL, eval_substVar ρ v c e]
+  | .un _ e => by simp [substVar, eval, evalL, eval_substVar ρ v c e]
+  | .ite x t e => by simp [substVar, eval, evalL, eval_substVar ρ v c x, eval_substVar ρ v c t, eval_substVar ρ v c e]
   | .bin _ a b => by simp [substVar, eval, evalL, eval_substVar ρ v c a, eval_substVar ρ v c b]
 
 /-! ## Inside for-loops: every iteration of every (nested) delay is preserved -/
@@ -666,7 +721,8 @@ def evalSL (ρ : Env) (τ : Nat → Nat → Option Rat) (v : String) (c : Nat) :
   | .idx n i => (evalSL ρ τ v c i).bind fun q => (toIndex q).bind fun j => ρ.val n j
   | .der n => ρ.val (derName n) 0
   | .derAt n i => (evalSL ρ τ v c i).bind fun q => (toIndex q).bind fun j => ρ.val (derName n) j
-  | .neg e => (evalSL ρ τ v c e).map (fun x => -x)
+  | .un f e => (evalSL ρ τ v c e).map (applyUn f)
+  | .ite x t e => (evalSL ρ τ v c x).bind fun y => if y = 0 then evalSL ρ τ v c e else evalSL ρ τ v c t
   | .bin o a b => (evalSL ρ τ v c a).bind fun x => (evalSL ρ τ v c b).bind fun y => applyBin o x y
   | .delay id _ _ => τ id c
   | .dsym k => ρ.val (delayName k) 0
@@ -715,10 +771,27 @@ theorem tr_semL (ρ : Env) (τ : Nat → Nat → Option Rat) (v : String) (n : N
     have hn : newArgs (some (v, n)) (.dsymAt m i) s = newArgs (some (v, n)) i s := by simp [newArgs, tr]
     obtain ⟨h1, h2⟩ := tr_semL ρ τ v n i s (by simpa [hn] using h)
     exact ⟨fun c hc1 hc2 => by simp [tr, evalL, evalSL, h1 c hc1 hc2], by simpa [hn, delayNodes] using h2⟩
-  | .neg e, s, h => by
-    have hn : newArgs (some (v, n)) (.neg e) s = newArgs (some (v, n)) e s := by simp [newArgs, tr]
+  | .un f e, s, h => by
+    have hn : newArgs (some (v, n)) (.un f e) s = newArgs (some (v, n)) e s := by simp [newArgs, tr]
     obtain ⟨h1, h2⟩ := tr_semL ρ τ v n e s (by simpa [hn] using h)
     exact ⟨fun c hc1 hc2 => by simp [tr, evalL, evalSL, h1 c hc1 hc2], by simpa [hn, delayNodes] using h2⟩
+  | .ite x t e, s, h => by
+    rw [newArgs_ite] at h
+    obtain ⟨x1, x2⟩ := tr_semL ρ τ v n x s (fun y hy => h y (by simp [hy]))
+    obtain ⟨t1, t2⟩ := tr_semL ρ τ v n t (tr (some (v, n)) x s).2 (fun y hy => h y (by simp [hy]))
+    obtain ⟨e1, e2⟩ := tr_semL ρ τ v n e (tr (some (v, n)) t (tr (some (v, n)) x s).2).2
+      (fun y hy => h y (by simp [hy]))
+    refine ⟨fun c hc1 hc2 => by simp [tr, evalL, evalSL, x1 c hc1 hc2, t1 c hc1 hc2, e1 c hc1 hc2], ?_⟩
+    intro y hy
+    rw [newArgs_ite] at hy
+    rcases List.mem_append.mp hy with hy | hy
+    · rcases List.mem_append.mp hy with hy | hy
+      · obtain ⟨nd, hnd, hp⟩ := x2 y hy
+        exact ⟨nd, by simp [delayNodes, hnd], hp⟩
+      · obtain ⟨nd, hnd, hp⟩ := t2 y hy
+        exact ⟨nd, by simp [delayNodes, hnd], hp⟩
+    · obtain ⟨nd, hnd, hp⟩ := e2 y hy
+      exact ⟨nd, by simp [delayNodes, hnd], hp⟩
   | .bin o a b, s, h => by
     rw [newArgs_bin] at h
     obtain ⟨a1, a2⟩ := tr_semL ρ τ v n a s (fun x hx => h x (List.mem_append_left _ hx))
@@ -820,7 +893,10 @@ theorem tr_id (lp : Option (String × Nat)) : ∀ (e : Expr) (s : St), delayNode
   | .idx _ i, s, h => by simp [tr, tr_id lp i s (by simpa [delayNodes] using h)]
   | .derAt _ i, s, h => by simp [tr, tr_id lp i s (by simpa [delayNodes] using h)]
   | .dsymAt _ i, s, h => by simp [tr, tr_id lp i s (by simpa [delayNodes] using h)]
-  | .neg e, s, h => by simp [tr, tr_id lp e s (by simpa [delayNodes] using h)]
+  | .un _ e, s, h => by simp [tr, tr_id lp e s (by simpa [delayNodes] using h)]
+  | .ite c t e, s, h => by
+    simp only [delayNodes, List.append_eq_nil_iff] at h
+    simp [tr, tr_id lp c s h.1.1, tr_id lp t s h.1.2, tr_id lp e s h.2]
   | .bin _ a b, s, h => by
     simp only [delayNodes, List.append_eq_nil_iff] at h
     simp [tr, tr_id lp a s h.1, tr_id lp b s h.2]
@@ -837,7 +913,8 @@ def vecS (v : String) : Expr → Bool
   | .idx _ i => mvS v i
   | .der _ => false
   | .derAt _ i => mvS v i
-  | .neg e => vecS v e
+  | .un _ e => vecS v e
+  | .ite c t e => vecS v c || vecS v t || vecS v e
   | .bin _ a b => vecS v a || vecS v b
   | .delay _ a _ => vecS v a
   | .dsym _ => false
@@ -850,7 +927,8 @@ def mvS (v : String) : Expr → Bool
   | .idx _ i => mvS v i
   | .der _ => false
   | .derAt _ i => mvS v i
-  | .neg e => mvS v e
+  | .un _ e => mvS v e
+  | .ite c t e => mvS v c || mvS v t || mvS v e
   | .bin _ a b => mvS v a || mvS v b
   | .delay _ a _ => vecS v a
   | .dsym _ => false
@@ -867,7 +945,12 @@ theorem tr_flags (v : String) (n : Nat) : ∀ (e : Expr) (s : St),
   | .idx _ i, s => by simp [tr, mentionsIndexed, mentionsVar, vecS, mvS, (tr_flags v n i s).2]
   | .derAt _ i, s => by simp [tr, mentionsIndexed, mentionsVar, vecS, mvS, (tr_flags v n i s).2]
   | .dsymAt _ i, s => by simp [tr, mentionsIndexed, mentionsVar, vecS, mvS, (tr_flags v n i s).2]
-  | .neg e, s => by simp [tr, mentionsIndexed, mentionsVar, vecS, mvS, (tr_flags v n e s).1, (tr_flags v n e s).2]
+  | .un _ e, s => by simp [tr, mentionsIndexed, mentionsVar, vecS, mvS, (tr_flags v n e s).1, (tr_flags v n e s).2]
+  | .ite c t e, s => by
+    simp [tr, mentionsIndexed, mentionsVar, vecS, mvS, (tr_flags v n c s).1, (tr_flags v n c s).2,
+      (tr_flags v n t (tr (some (v, n)) c s).2).1, (tr_flags v n t (tr (some (v, n)) c s).2).2,
+      (tr_flags v n e (tr (some (v, n)) t (tr (some (v, n)) c s).2).2).1,
+      (tr_flags v n e (tr (some (v, n)) t (tr (some (v, n)) c s).2).2).2]
   | .bin _ a b, s => by
     simp [tr, mentionsIndexed, mentionsVar, vecS, mvS, (tr_flags v n a s).1, (tr_flags v n a s).2,
       (tr_flags v n b (tr (some (v, n)) a s).2).1, (tr_flags v n b (tr (some (v, n)) a s).2).2]
@@ -891,7 +974,8 @@ def srcAtomsL (lv : Option String) : Expr → List Atom
   | .derAt n i =>
     let ai := srcAtomsL lv i
     if .loopVar ∈ ai then [.loopIdx (derName n)] else .der n :: ai
-  | .neg e => srcAtomsL lv e
+  | .un _ e => srcAtomsL lv e
+  | .ite c t e => srcAtomsL lv c ++ srcAtomsL lv t ++ srcAtomsL lv e
   | .bin _ a b => srcAtomsL lv a ++ srcAtomsL lv b
   | .delay id a _ =>
     match lv with
@@ -942,7 +1026,10 @@ theorem atoms_trL (lp : Option (String × Nat)) : ∀ (e : Expr) (s : St),
     · simp [tr, atoms, srcAtomsL, hc, hl.mpr hc, norm]
     · have hc' : Atom.loopVar ∉ atoms (lp.map (·.1)) (tr lp i s).1 := fun h => hc (hl.mp h)
       simp [tr, atoms, srcAtomsL, hc, hc', ih, norm]
-  | .neg e, s => by simpa [tr, atoms, srcAtomsL] using atoms_trL lp e s
+  | .un _ e, s => by simpa [tr, atoms, srcAtomsL] using atoms_trL lp e s
+  | .ite c t e, s => by
+    simp [tr, atoms, srcAtomsL, atoms_trL lp c s, atoms_trL lp t (tr lp c s).2,
+      atoms_trL lp e (tr lp t (tr lp c s).2).2]
   | .bin _ a b, s => by simp [tr, atoms, srcAtomsL, atoms_trL lp a s, atoms_trL lp b (tr lp a s).2]
   | .delay id a d, s => by
     cases lp with
@@ -980,7 +1067,10 @@ theorem durs_trL (c : Cats) (lp : Option (String × Nat)) : ∀ (e : Expr) (s : 
   | .idx _ i, s => by simpa [newArgs, tr, delayNodes] using durs_trL c lp i s
   | .dsymAt _ i, s => by simpa [newArgs, tr, delayNodes] using durs_trL c lp i s
   | .derAt _ i, s => by simpa [newArgs, tr, delayNodes] using durs_trL c lp i s
-  | .neg e, s => by simpa [newArgs, tr, delayNodes] using durs_trL c lp e s
+  | .un _ e, s => by simpa [newArgs, tr, delayNodes] using durs_trL c lp e s
+  | .ite x t e, s => by
+    simp [newArgs_ite, delayNodes, durs_trL c lp x s, durs_trL c lp t (tr lp x s).2,
+      durs_trL c lp e (tr lp t (tr lp x s).2).2]
   | .bin o a b, s => by simp [newArgs_bin, delayNodes, durs_trL c lp a s, durs_trL c lp b (tr lp a s).2]
   | .delay id a d, s => by
     simp only [newArgs_delay, delayNodes, List.map_append, durs_trL c lp a s, durs_trL c lp d (tr lp a s).2,
@@ -1028,7 +1118,8 @@ def idxNames : Expr → List String
   | .idx n i => n :: idxNames i
   | .der _ => []
   | .derAt _ i => idxNames i
-  | .neg e => idxNames e
+  | .un _ e => idxNames e
+  | .ite c t e => idxNames c ++ idxNames t ++ idxNames e
   | .bin _ a b => idxNames a ++ idxNames b
   | .delay _ a d => idxNames a ++ idxNames d
   | .dsym _ => []
@@ -1106,7 +1197,12 @@ theorem subst_atoms {c : Cats} {lv : Option String} {σ : String → Option Expr
       simp [hl, hl', disallowed]
     · have hl' : Atom.loopVar ∉ atoms lv (substRef σ i) := fun hh => hl (i1.mp hh)
       simp [hl, hl', i2, disallowed]
-  | .neg e, h => by simpa [substRef, atoms, idxNames] using subst_atoms ok e (by simpa [idxNames] using h)
+  | .un _ e, h => by simpa [substRef, atoms, idxNames] using subst_atoms ok e (by simpa [idxNames] using h)
+  | .ite x t e, h => by
+    obtain ⟨x1, x2⟩ := subst_atoms ok x (fun m hm => h m (by simp [idxNames, hm]))
+    obtain ⟨t1, t2⟩ := subst_atoms ok t (fun m hm => h m (by simp [idxNames, hm]))
+    obtain ⟨e1, e2⟩ := subst_atoms ok e (fun m hm => h m (by simp [idxNames, hm]))
+    simp [substRef, atoms, x1, t1, e1, x2, t2, e2]
   | .bin _ a b, h => by
     obtain ⟨a1, a2⟩ := subst_atoms ok a (fun m hm => h m (by simp [idxNames, hm]))
     obtain ⟨b1, b2⟩ := subst_atoms ok b (fun m hm => h m (by simp [idxNames, hm]))
